@@ -32,6 +32,9 @@ def run(ctx):
         ctx.floor('tower constant relations[%s]' % cfg, n, 30)
         m = formulas.rule_tower(ctx, cfg, prog)
         ctx.floor('R-POLY tower formulas[%s]' % cfg, m, 100)
+        formulas.rule_fq2_sqrt(ctx, cfg, prog)
+        npred = formulas.rule_tower_predicates(ctx, cfg, prog)
+        ctx.floor('R-PRED tower predicates[%s]' % cfg, npred, 6)
         c = formulas.rule_cyclotomic(ctx, cfg, prog)
         e = formulas.rule_exponents_gt(ctx, cfg, prog, which=('cyclo', 'generic'))
         ctx.floor('R-POLY cyclotomic/exponent obligations[%s]' % cfg, c + e, 6)
